@@ -21,6 +21,46 @@ pub fn build(w: &mut World) {
             .build();
         w.sim.execute_manifest(m, vec![w.accounts[0].badge()]).expect_commit_success();
     }
+    let key = Secp256k1PrivateKey::from_u64(1u64).unwrap().public_key();
+    let validator = w.sim.get_active_validator_with_key(&key);
+    let info = w.sim.get_validator_info(validator);
+    let (pool, pool_unit) = w.sim.create_one_resource_pool(w.fungibles[0].address, rule!(allow_all));
+    let mut base_replay = Replay::default();
+    let events = w.sim.collected_events();
+    for tx in events.iter() {
+        for e in tx {
+            base_replay.apply(e);
+        }
+    }
+    let base_events = events.len();
+    w.set_ext(Ext { validator, lsu: info.stake_unit_resource, claim_nft: info.claim_nft, pool, pool_unit, base_replay, base_events });
+}
+
+/// Per-world extras created once by `build` (addresses are stable across resets).
+#[derive(Clone)]
+pub struct Ext {
+    pub validator: ComponentAddress,
+    pub lsu: ResourceAddress,
+    pub claim_nft: ResourceAddress,
+    pub pool: ComponentAddress,
+    pub pool_unit: ResourceAddress,
+    /// event model of the frozen world (all events from genesis on)
+    pub base_replay: Replay,
+    pub base_events: usize,
+}
+
+/// Hand-built transactions over components the manifest model does not cover (validator, pool).
+#[derive(Clone, Debug)]
+pub enum Opaque {
+    Stake { acct: usize, xrd: A },
+    Unstake { acct: usize, part: u64 },
+    Claim { acct: usize },
+    Contribute { acct: usize, amount: A },
+    Redeem { acct: usize, part: u64 },
+    /// fee lock far too small: rejected
+    FeeTooLow { acct: usize },
+    /// no fee lock at all: rejected
+    NoFee { acct: usize },
 }
 
 pub struct Session<'w> {
@@ -72,6 +112,109 @@ impl<'w> Session<'w> {
         }
         self.led.sync(self.w.db(), &self.wd, &self.totals);
     }
+    pub fn ext(&self) -> Ext {
+        self.w.ext::<Ext>().clone()
+    }
+
+    fn held(&self, acct: usize, res: &ResourceAddress) -> A {
+        match account_vault(self.w.db(), &self.wd.accounts[acct].0, res) {
+            Some(v) => {
+                if let Some(x) = self.totals.fungible_vaults.get(&v) {
+                    atto(x.1)
+                } else if let Some(x) = self.totals.non_fungible_vaults.get(&v) {
+                    x.2.len() as A * ONE
+                } else {
+                    0
+                }
+            }
+            None => 0,
+        }
+    }
+
+    /// Decode and run one opaque transaction.
+    pub fn opaque(&mut self, g: &mut Gen) -> (Opaque, Obs) {
+        let ext = self.ext();
+        let acct = g.index(self.wd.accounts.len());
+        let a = self.wd.accounts[acct].0;
+        let op = match g.weighted(&[4, 3, 2, 3, 3, 1, 1]) {
+            0 => Opaque::Stake { acct, xrd: (1 + g.below(200) as A) * ONE / 4 },
+            1 => Opaque::Unstake { acct, part: 1 + g.below(4) },
+            2 => Opaque::Claim { acct },
+            3 => Opaque::Contribute { acct, amount: (1 + g.below(3000) as A) * ONE / 7 },
+            4 => Opaque::Redeem { acct, part: 1 + g.below(4) },
+            5 => Opaque::FeeTooLow { acct },
+            _ => Opaque::NoFee { acct },
+        };
+        let b = ManifestBuilder::new();
+        let manifest = match &op {
+            Opaque::Stake { xrd, .. } => b
+                .lock_fee_from_faucet()
+                .withdraw_from_account(a, XRD, dec(*xrd))
+                .take_all_from_worktop(XRD, "b")
+                .stake_validator(ext.validator, "b")
+                .deposit_entire_worktop(a)
+                .build(),
+            Opaque::Unstake { part, .. } => {
+                let have = self.held(acct, &ext.lsu);
+                b.lock_fee_from_faucet()
+                    .withdraw_from_account(a, ext.lsu, dec(have / *part as A))
+                    .take_all_from_worktop(ext.lsu, "b")
+                    .unstake_validator(ext.validator, "b")
+                    .deposit_entire_worktop(a)
+                    .build()
+            }
+            Opaque::Claim { .. } => {
+                let have = self.held(acct, &ext.claim_nft);
+                b.lock_fee_from_faucet()
+                    .withdraw_from_account(a, ext.claim_nft, dec(have.min(ONE)))
+                    .take_all_from_worktop(ext.claim_nft, "b")
+                    .claim_xrd(ext.validator, "b")
+                    .deposit_entire_worktop(a)
+                    .build()
+            }
+            Opaque::Contribute { amount, .. } => b
+                .lock_fee_from_faucet()
+                .withdraw_from_account(a, self.wd.res[2].addr, dec(*amount))
+                .take_all_from_worktop(self.wd.res[2].addr, "b")
+                .call_method_with_name_lookup(ext.pool, "contribute", |l| (l.bucket("b"),))
+                .deposit_entire_worktop(a)
+                .build(),
+            Opaque::Redeem { part, .. } => {
+                let have = self.held(acct, &ext.pool_unit);
+                b.lock_fee_from_faucet()
+                    .withdraw_from_account(a, ext.pool_unit, dec(have / *part as A))
+                    .take_all_from_worktop(ext.pool_unit, "b")
+                    .call_method_with_name_lookup(ext.pool, "redeem", |l| (l.bucket("b"),))
+                    .deposit_entire_worktop(a)
+                    .build()
+            }
+            Opaque::FeeTooLow { .. } => b.lock_fee(a, dec(ONE / 1_000_000)).withdraw_from_account(a, XRD, dec(ONE)).deposit_entire_worktop(a).build(),
+            Opaque::NoFee { .. } => b.withdraw_from_account(a, XRD, dec(ONE)).deposit_entire_worktop(a).build(),
+        };
+        let proofs = vec![self.wd.accounts[acct].1.clone()];
+        let obs = self.run_raw(manifest, proofs);
+        (op, obs)
+    }
+
+    /// One consensus round (with the default genesis every round ends the epoch: emissions).
+    pub fn next_round(&mut self) -> Obs {
+        let before = self.totals.clone();
+        let sim = &mut self.w.sim;
+        let r = vf_core::catch(move || {
+            let cur = sim.get_consensus_manager_state().round.number();
+            sim.advance_to_round(Round::of(cur + 1))
+        });
+        let run = match r {
+            Ok(receipt) => Run { receipt: Some(receipt), panic: None },
+            Err(p) => Run { receipt: None, panic: Some(p) },
+        };
+        let after = Totals::scan(self.w.db());
+        let obs = Obs { before, after, run };
+        let n = self.led.next_id;
+        self.absorb(&obs, n);
+        obs
+    }
+
     pub fn rescan(&mut self) {
         self.totals = Totals::scan(self.w.db());
         self.led.sync(self.w.db(), &self.wd, &self.totals);
@@ -120,6 +263,8 @@ fn why_label(why: Why) -> &'static str {
         "leftover_worktop" => "fail:leftover_worktop",
         "orphan" => "fail:leftover_bucket",
         "deposit" => "fail:deposit",
+        "trap" => "fail:zone_composition_trap",
+        "fee_touched" => "fail:fee_lock_on_touched_vault",
         _ => "fail:other",
     }
 }
